@@ -185,7 +185,9 @@ class HTTPChannel(wasyncore.dispatcher):
             self.current_outbuf_count += num_bytes
             self.total_outbufs_len += num_bytes
             self.sent_continue = True
-            self._flush_some()
+            # may run on a worker thread (end of service()): never tear the
+            # channel down from here, the main loop will notice a dead socket
+            self._flush_some(do_close=False)
 
     def received(self, data):
         """
